@@ -588,9 +588,6 @@ theorem stdmodel_trapz_note (M : FlModel) (hu : M.u = 1 / 2 ^ 53) (f : Fl M → 
   refine le_trans (trapz_error f a b n hlt) (mul_le_mul_of_nonneg_right hγ ?_)
   exact List.sum_nonneg (by intro t ht; obtain ⟨s, _, rfl⟩ := List.mem_map.mp ht; exact abs_nonneg s)
 
-/-- deprecated alias of `stdmodel_trapz_note` (the `f64_` prefix wrongly suggested a statement about IEEE binary64; kept only
-until the `REQUIRED_THEOREMS` wiring is updated) -/
-alias f64_trapz_note := stdmodel_trapz_note
 
 /-! ### the relative error of an extrapolated value is unbounded -/
 
